@@ -190,6 +190,90 @@ def chunk(seed, idx, n, stream):
     return ex
 
 
+# ---------------------------------------------------------------------------------------------
+# async markup-capable classes: option oracle (queued in {False, True, 'model'})
+# ---------------------------------------------------------------------------------------------
+
+def gen_async(rng):
+    names = rng.sample(['A', 'B', 'C', 'D'], rng.randint(2, 4))
+    hier = rng.random() < 0.5
+    cbn = [0]
+
+    def cbs(p=0.5):
+        if rng.random() > p:
+            return []
+        out = []
+        for _ in range(rng.randint(1, 2)):
+            cbn[0] += 1
+            out.append('cb%d' % cbn[0])
+        return out
+    return {'hier': hier, 'queued': rng.choice([False, True, 'model', 'model']), 'send_event': rng.random() < 0.4,
+            'auto_transitions': rng.random() < 0.5, 'ignore_invalid_triggers': rng.choice([None, False, True]),
+            'model_attribute': rng.choice(['state', 'state', 'mode']), 'name': rng.choice([None, 'am', 'Stage 2:']),
+            'machine_cbs': {k: cbs() for k in mc.MACHINE_LISTS}, 'states': names, 'initial': rng.choice(names),
+            'transitions': [['go%d' % rng.randint(0, 2), rng.choice(names), rng.choice(names)] for _ in range(rng.randint(1, 4))],
+            'n_models': rng.randint(1, 3)}
+
+
+def judge_async(d):
+    """AsyncGraphMachine / HierarchicalAsyncGraphMachine (mermaid): every machine-level option and list of the
+    description under its own key with its own value (queued may be a queue *mode*), and the rebuilt machine
+    carries the same options"""
+    from transitions.extensions.factory import AsyncGraphMachine, HierarchicalAsyncGraphMachine
+    cls = HierarchicalAsyncGraphMachine if d['hier'] else AsyncGraphMachine
+    kw = {k: list(v) for k, v in d['machine_cbs'].items() if v}
+    m = cls(model=[mm.ModelA() for _ in range(d['n_models'])], states=list(d['states']), initial=d['initial'],
+            transitions=[list(t) for t in d['transitions']], queued=d['queued'], send_event=d['send_event'],
+            auto_transitions=d['auto_transitions'], ignore_invalid_triggers=d['ignore_invalid_triggers'],
+            model_attribute=d['model_attribute'], name=d['name'], graph_engine='mermaid', **kw)
+    mk = json.loads(json.dumps(m.markup))
+    out = []
+    for k in ('queued', 'send_event', 'auto_transitions', 'ignore_invalid_triggers', 'model_attribute'):
+        if k not in mk or mk[k] != d[k] or type(mk[k]) is not type(d[k]):
+            out.append(('faithful.option', {'class': cls.__name__, 'key': k, 'expected': d[k], 'markup': mk.get(k, '<absent>')}))
+    if mk.get('name') != d['name']:
+        out.append(('faithful.option', {'class': cls.__name__, 'key': 'name', 'expected': d['name'], 'markup': mk.get('name')}))
+    for k in mc.MACHINE_LISTS:
+        if mk.get(k) != d['machine_cbs'][k]:
+            out.append(('faithful.machine-list', {'class': cls.__name__, 'key': k, 'expected': d['machine_cbs'][k], 'markup': mk.get(k)}))
+    if [e.get('name') for e in mk.get('states', [])] != d['states']:
+        out.append(('faithful.states', {'class': cls.__name__, 'expected': d['states'], 'markup': [e.get('name') for e in mk.get('states', [])]}))
+    if len(mk.get('models', [])) != d['n_models']:
+        out.append(('faithful.models', {'class': cls.__name__, 'expected': d['n_models'], 'markup': len(mk.get('models', []))}))
+    try:
+        m2 = cls(markup=json.loads(json.dumps(mk)), graph_engine='mermaid')
+    except Exception as e:
+        out.append(('roundtrip.import-raises', {'class': cls.__name__, 'exception': '%s: %s' % (type(e).__name__, e)}))
+        return out
+    for attr in ('has_queue', 'send_event', 'auto_transitions', 'ignore_invalid_triggers', 'model_attribute', 'name'):
+        a, b = getattr(m, attr), getattr(m2, attr)
+        if a != b or type(a) is not type(b):
+            out.append(('roundtrip.machine-attribute-differs', {'class': cls.__name__, 'attribute': attr, 'original': a, 'rebuilt': b}))
+    dd = mc.diff_paths(mc.strip_ids(mk), mc.strip_ids(m2.markup))
+    if dd:
+        out.append(('roundtrip.markup-differs', {'class': cls.__name__, 'differences': [[p, a, b] for p, a, b in dd[:4]]}))
+    return out
+
+
+def async_chunk(seed, idx, n):
+    rng = random.Random('C14/async/%d/%d' % (seed, idx))
+    ex = Exploration()
+    for _ in range(n):
+        d = gen_async(rng)
+        try:
+            fs = judge_async(d)
+        except Exception as e:
+            import traceback
+            raise common.MachineryError('async case could not be realised: %s\n%s\n%s' % (e, traceback.format_exc()[-1200:], json.dumps(d)))
+        ex.evaluations += 1
+        ex.traces_validated += 1
+        ex.nontrivial.add(_fp(d))
+        _bump(ex.stats.setdefault('async_queued', {}), '%s/%s' % ('hier' if d['hier'] else 'flat', d['queued']))
+        for what, details in fs:
+            ex.failures.append(Failure('monitor', what, {'stream': 'async', 'desc': d}, details))
+    return ex
+
+
 def _bump(d, k, n=1):
     d[k] = d.get(k, 0) + n
 
@@ -374,7 +458,9 @@ class C14(runner.Check):
             'three machines: a twin nobody ever exported/observed, the original after all exports, the rebuilt one; '
             'user triggers named like automatic ones (to_<state>) when auto_transitions is off; callback programs '
             '(markup reads and dirty-setting modifications issued from inside state/transition callbacks while the '
-            'models move); Enum state definitions (plain, IntEnum, str mix-in, StrEnum); distinct = different '
+            'models move); Enum state definitions (plain, IntEnum, str mix-in, StrEnum); removal of locally declared '
+            'triggers; option oracle on AsyncGraphMachine/HierarchicalAsyncGraphMachine (queued False/True/model); '
+            'distinct = different '
             'description')
     trusted = ('hand-written model lean/Model/Markup.lean tied to /repo by equality of the encoded markup '
                '(export), of the rebuilt object state (import) and of the re-exported markup on every generated case',
@@ -414,6 +500,8 @@ class C14(runner.Check):
             nch, per = quick if tier == 'quick' else thorough
             payloads += [(seed, i, per, name) for i in range(nch)]
         ex = self.corpus()
+        for part in runner.parallel(async_chunk, [(seed, i, 40 if tier == 'quick' else 400) for i in range(4)]):
+            ex.merge(part)
         if missing:
             ex.failures.append(Failure('correspondence', 'theorem-hypothesis.whitelist', {'stream': 'none', 'desc': None},
                                        {'missing_from_live_whitelists': missing}))
@@ -429,9 +517,18 @@ class C14(runner.Check):
         ex = Exploration()
         files = sorted(glob.glob(os.path.join(common.CORPUS, 'C14', '*.json')))
         cases = []
-        for f in files:
+        for f in list(files):
             with open(f) as fh:
-                cases.append(json.load(fh))
+                c = json.load(fh)
+            if c.get('stream') == 'async':      # option oracle on the async markup-capable classes
+                files.remove(f)
+                fs = judge_async(c['desc'])
+                ex.evaluations += 1
+                _bump(ex.stats.setdefault('corpus', {}), os.path.basename(f) + (':FAIL' if fs else ':ok'))
+                for what, details in fs:
+                    ex.failures.append(Failure('monitor', what, {'stream': 'async', 'desc': c['desc']}, details))
+                continue
+            cases.append(c)
         for f, c, r in zip(files, cases, run_batch([c['desc'] for c in cases])):
             ex.evaluations += 1
             ex.traces_validated += 1
@@ -449,6 +546,8 @@ class C14(runner.Check):
         correspondence failure (known findings need no replay)"""
         known = [k.get('signature') for k in self.known()]
         unlisted = [f for f in failures if f.kind == 'monitor' and not (f.signature is not None and f.signature in known)]
+        if unlisted and unlisted[0].case.get('stream') == 'async':
+            return      # small by construction
         corr = [f for f in failures if f.kind != 'monitor']
         for f in (unlisted[:1] or [c for c in corr if c.case.get('desc')][:1]):
             key = (f.kind, f.what, f.signature)
@@ -486,6 +585,12 @@ class C14(runner.Check):
         if 'case' not in payload:
             print('no concrete input in this replay file: broken obligation', payload.get('broken_obligation'))
             return 1
+        if payload['case'].get('stream') == 'async':
+            fs = judge_async(payload['case']['desc'])
+            print(json.dumps(payload['case']['desc'], indent=1))
+            for what, details in fs:
+                print('FAIL monitor', what, json.dumps(details, default=str)[:600])
+            return 1 if fs else 0
         r = rejudge(payload['case'])
         print(json.dumps(payload['case']['desc'], indent=1)[:4000])
         known = [k.get('signature') for k in self.known()]
